@@ -136,7 +136,7 @@ func (ex *Exec) modArrayNames(fc *FuncContract, c *ssa.CallCommon, e CExpr) (map
 		// x.f where x is a parameter of the callee: type from the signature
 		if t := ex.staticTypeOf(fc, c, n.X); t != nil {
 			st := deref(t)
-			if s, ok := st.Underlying().(*types.Struct); ok {
+			if s, ok := asStruct(st); ok {
 				for i := 0; i < s.NumFields(); i++ {
 					if s.Field(i).Name() == n.Field {
 						an, as := w.FieldArray(st, i)
@@ -158,7 +158,7 @@ func (ex *Exec) staticTypeOf(fc *FuncContract, c *ssa.CallCommon, e CExpr) types
 			if bt == nil {
 				return nil
 			}
-			if s, ok := deref(bt).Underlying().(*types.Struct); ok {
+			if s, ok := asStruct(deref(bt)); ok {
 				for i := 0; i < s.NumFields(); i++ {
 					if s.Field(i).Name() == sel.Field {
 						return s.Field(i).Type()
@@ -595,7 +595,7 @@ func (ex *Exec) havocLoc(st *State, env *CEnv, old *Heap, e CExpr) error {
 			return cerr("modifies %s: untyped base", n.Field)
 		}
 		t := deref(v.GoT)
-		s, ok := t.Underlying().(*types.Struct)
+		s, ok := asStruct(t)
 		if !ok {
 			return cerr("modifies .%s: not a struct", n.Field)
 		}
@@ -615,7 +615,7 @@ func (ex *Exec) havocLoc(st *State, env *CEnv, old *Heap, e CExpr) error {
 
 func (ex *Exec) freshOfType(st *State, hint string, t types.Type) Term {
 	w := ex.w
-	if stt, ok := t.Underlying().(*types.Struct); ok {
+	if stt, ok := asStruct(t); ok {
 		fs := make([]Term, stt.NumFields())
 		for i := range fs {
 			fs[i] = ex.freshOfType(st, hint, stt.Field(i).Type())
@@ -752,7 +752,7 @@ func (ex *Exec) appendSlices(st *State, s, t Term, sT, tT types.Type) Term {
 		w.Note("append: result never aliases its first argument (spare capacity not modelled)")
 		return MkSlice(r, IntLit(0), BLen(content), capv)
 	}
-	if _, isStruct := elem.Underlying().(*types.Struct); isStruct {
+	if _, isStruct := asStruct(elem); isStruct {
 		w.Note("append on slice of structs: content havoced")
 		ln := Add(SLen(s), SLen(t))
 		return MkSlice(r, IntLit(0), ln, ln)
